@@ -251,7 +251,9 @@ theorem MFile.addChanges_inv (cd : Codec) (hv : cd.Valid) (lv cn : Bool) (mf mf'
       cases hadd
       refine ⟨⟨fsets ++ [cs], m1', ?_, ?_, ?_, heq1.symm, hw1', hw1, fun hl =>
         ⟨applyChangeSet_LevelsOK cs (hsl hl) (hlv hl).1 happ', applyChangeSet_LevelsOK cs (hsl hl) (hlv hl).2 happ⟩, ?_⟩, rfl, rfl⟩
-      · simp [hpos, writeAt_end, hfile, manifestFileOf, framesOf_append, framesOf_cons]
+      · show writeAt mf.file mf.pos (frame cd (cd.enc cs)) = _
+        rw [hpos, writeAt_end, hfile]
+        simp [manifestFileOf, framesOf_append, framesOf_cons]
       · rw [applyAll_append, hall]
         simp [applyAll, happ']
       · intro s hs
@@ -260,7 +262,8 @@ theorem MFile.addChanges_inv (cd : Codec) (hv : cd.Valid) (lv cn : Bool) (mf mf'
         · simp only [List.mem_singleton] at h
           subst h
           exact hcs
-      · simp [hpos, writeAt_end]
+      · show mf.pos + (frame cd (cd.enc cs)).length = (writeAt mf.file mf.pos (frame cd (cd.enc cs))).length
+        rw [hpos, writeAt_end, List.length_append]
   · rw [happ] at hadd
     simp at hadd
 
@@ -323,6 +326,112 @@ theorem C17_replay_exact_levels (cd : Codec) (hv : cd.Valid) (ext : Nat) (hext :
   rw [hext''] at hfile
   obtain ⟨hl1, hl2⟩ := hlv rfl
   refine ⟨m', ?_, heq.1, levels_eq_of_lookup_eq hl1 hl2 heq.1, hl1, hl2⟩
+  rw [hfile] at hsize ⊢
+  exact replay_intact cd hv ext hext fsets m' hall hfr hsize
+
+/-! ## histories with crashes: torn tail, reopen, further appends on the same handle -/
+
+instance (fsize : Nat) (t : Bytes) : Decidable (TornTail fsize t) := by unfold TornTail; infer_instance
+
+/-- A step of a longer history: an accepted `addChanges`, or a crash that leaves `tail` (a torn
+    record: `TornTail`) behind the last complete frame, followed by a reopen
+    (`helpOpenOrCreateManifestFile`: replay, truncate, seek to the end, clone). -/
+inductive MStep where
+  | add (cs : ChangeSet)
+  | crashReopen (tail : Bytes)
+
+def runSteps (cd : Codec) (mf : MFile) : List MStep → Option MFile
+  | [] => some mf
+  | .add cs :: rest =>
+    match mf.addChanges cd cs with
+    | (mf', none) => runSteps cd mf' rest
+    | (_, some _) => none
+  | .crashReopen tail :: rest =>
+    if TornTail (mf.file ++ tail).length tail ∧ (mf.file ++ tail).length < 2 ^ 32 then
+      match MFile.openExisting cd (mf.file ++ tail) mf.ext mf.threshold with
+      | .ok (mf', _) => runSteps cd mf' rest
+      | .error _ => none
+    else none
+
+/-- Reopening after a torn tail: the tail is dropped, the file is the one before the crash, the
+    descriptor is at its end, and the in-memory manifest is a clone of the replayed one. -/
+theorem MFile.reopen_inv (cd : Codec) (hv : cd.Valid) (lv cn : Bool) (mf : MFile) (tail : Bytes)
+    (hext : mf.ext < 2 ^ 16) (hinv : mf.Inv cd lv cn)
+    (htorn : TornTail (mf.file ++ tail).length tail) (hsize : (mf.file ++ tail).length < 2 ^ 32) :
+    ∃ mf' m, MFile.openExisting cd (mf.file ++ tail) mf.ext mf.threshold = .ok (mf', m) ∧
+      mf'.Inv cd lv false ∧ mf'.ext = mf.ext ∧ mf'.threshold = mf.threshold ∧ mf'.file = mf.file := by
+  obtain ⟨fsets, m', hfile, hall, hfr, heq, hw', hw, hlv, hpos⟩ := hinv
+  have hrep : replay cd (mf.file ++ tail) mf.ext = .ok (m', mf.file.length) := by
+    rw [hfile] at hsize htorn ⊢
+    unfold manifestFileOf at *
+    rw [List.append_assoc] at hsize htorn ⊢
+    rw [replay_frames_tail cd hv mf.ext hext fsets tail m' hall hfr hsize, replayRest_torn cd _ tail _ m' htorn]
+    simp
+  obtain ⟨m1, h1, hw1, heq1⟩ := applyChangeSet_asChanges cd hv m' hw'
+  have hclone : m'.clone cd = m1 := by unfold Manifest.clone; rw [h1]
+  refine ⟨{ file := mf.file, manifest := m1, threshold := mf.threshold, ext := mf.ext, pos := mf.file.length },
+    m', ?_, ?_, rfl, rfl, rfl⟩
+  · unfold MFile.openExisting
+    rw [hrep]
+    simp only [List.take_left' rfl, hclone]
+  · refine ⟨fsets, m', hfile, hall, hfr, ?_, hw', hw1, ?_, rfl⟩
+    · exact ⟨fun id => (heq1.1 id).symm, fun hc => by cases hc⟩
+    · intro hl
+      exact ⟨(hlv hl).1, applyChangeSet_LevelsOK _ (asChanges_smallLevel cd hv m' hw') Manifest.LevelsOK_empty h1⟩
+
+theorem runSteps_inv (cd : Codec) (hv : cd.Valid) (lv : Bool) (mf mf' : MFile) (steps : List MStep)
+    (hext : mf.ext < 2 ^ 16)
+    (hsets : ∀ cs, MStep.add cs ∈ steps → ChangeSet.InRange cs)
+    (hsl : lv = true → ∀ cs, MStep.add cs ∈ steps → ∀ c, c ∈ cs → c.SmallLevel)
+    (hinv : mf.Inv cd lv false) (hrun : runSteps cd mf steps = some mf') :
+    mf'.Inv cd lv false ∧ mf'.ext = mf.ext := by
+  induction steps generalizing mf with
+  | nil => simp only [runSteps] at hrun; cases hrun; exact ⟨hinv, rfl⟩
+  | cons st steps ih =>
+    cases st with
+    | add cs =>
+      simp only [runSteps] at hrun
+      rcases hadd : mf.addChanges cd cs with ⟨mf1, _ | e⟩
+      · rw [hadd] at hrun
+        obtain ⟨h1, hext1, _⟩ := MFile.addChanges_inv cd hv lv false mf mf1 cs (hsets cs (by simp))
+          (fun hl => hsl hl cs (by simp)) hinv hadd
+        obtain ⟨h2, hext2⟩ := ih mf1 (by rw [hext1]; exact hext) (fun s hs => hsets s (by simp [hs]))
+          (fun hl s hs => hsl hl s (by simp [hs])) h1 hrun
+        exact ⟨h2, hext2.trans hext1⟩
+      · rw [hadd] at hrun; simp at hrun
+    | crashReopen tail =>
+      simp only [runSteps] at hrun
+      split at hrun
+      · rename_i hc
+        obtain ⟨mf1, m, hopen, h1, hext1, _, _⟩ := MFile.reopen_inv cd hv lv false mf tail hext hinv hc.1 hc.2
+        rw [hopen] at hrun
+        simp only at hrun
+        obtain ⟨h2, hext2⟩ := ih mf1 (by rw [hext1]; exact hext) (fun s hs => hsets s (by simp [hs]))
+          (fun hl s hs => hsl hl s (by simp [hs])) h1 hrun
+        exact ⟨h2, hext2.trans hext1⟩
+      · cases hrun
+
+/-- **Replay is exact across crashes.** Start from a fresh MANIFEST; any sequence of accepted
+    `addChanges` calls (rewrites included) and of crashes that tear the record being appended
+    (any torn tail), each followed by a reopen and by further appends **on the reopened handle**.
+    Then `ReplayManifestFile` on the final file succeeds with truncation offset = file size and
+    returns exactly the in-memory table map. (The `Creations`/`Deletions` counters of a reopened
+    `manifestFile` restart from its clone, so they are not compared here; see `C17_replay_exact`.)
+    This is where the position of the file descriptor matters: `openExisting` seeks to the end of
+    the truncated file, so the next append is contiguous (`writeAt` at `pos = len`). -/
+theorem C17_replay_exact_reopen (cd : Codec) (hv : cd.Valid) (ext : Nat) (hext : ext < 2 ^ 16)
+    (threshold : Int) (steps : List MStep) (mf : MFile)
+    (hsets : ∀ cs, MStep.add cs ∈ steps → ChangeSet.InRange cs)
+    (hrun : runSteps cd (MFile.create cd ext threshold) steps = some mf)
+    (hsize : mf.file.length < 2 ^ 32) :
+    ∃ m, replay cd mf.file ext = .ok (m, mf.file.length) ∧
+      (∀ id, m.lookup id = mf.manifest.lookup id) ∧ mf.pos = mf.file.length := by
+  obtain ⟨⟨fsets, m', hfile, hall, hfr, heq, _, _, _, hpos⟩, hext'⟩ :=
+    runSteps_inv cd hv false _ mf steps hext hsets (by intro h; cases h)
+      (MFile.create_inv cd hv false false ext threshold) hrun
+  have hext'' : mf.ext = ext := hext'
+  rw [hext''] at hfile
+  refine ⟨m', ?_, heq.1, hpos⟩
   rw [hfile] at hsize ⊢
   exact replay_intact cd hv ext hext fsets m' hall hfr hsize
 
@@ -405,6 +514,14 @@ set_option maxRecDepth 40000 in
 example : c17Level300.map (fun mf => match replay pbCodec mf.file 0 with
       | .ok r => (levelAt r.1.levels 300, levelAt r.1.levels 44)
       | .error _ => ([], [])) = some ([], [1]) := by decide
+
+-- a crash history on the concrete codec: one set, a crash leaving 5 bytes of the next frame header,
+-- reopen, one more set on the reopened handle: the file is contiguous and replays to both tables
+set_option maxRecDepth 20000 in
+example : (runSteps pbCodec (MFile.create pbCodec 0 10) [.add [Change.create 1 0 0 1],
+      .crashReopen [0x00, 0x00, 0x00, 0x2a, 0xde], .add [Change.create 2 1 0 1]]).map
+    (fun mf => (mf.file.length, mf.pos, (replay pbCodec mf.file 0).toOption.map (fun r => (r.1.tables.map (·.1), r.2)))) =
+    some (46, 46, some ([2, 1], 46)) := by decide
 
 -- checksum error on the concrete codec: one payload byte of the last frame altered
 example : replay pbCodec
